@@ -1077,13 +1077,35 @@ func longRun(r *ev.Run, id string) {
 	renew := s.concretize(Op{Client: "B", Msg: 5, IAPDs: [][]string{{"own1"}}})
 	renew.Repeat = 4200
 	s.Apply(renew, true)
+	if !s.Terminal() {
+		// ... and past a 16-bit count of IA_PDs handled since A was last served
+		renew.Repeat = 65535 - 4200
+		s.Apply(renew, true)
+	}
 	for _, op := range []Op{{Client: "C", Msg: 1, IAPDs: [][]string{{"::/0", "::/0"}}}, {Client: "A", Msg: 5, IAPDs: [][]string{{"own1"}}}, {Client: "A", Msg: 3, IAPDs: [][]string{{}}}, {Client: "C", Msg: 1, IAPDs: [][]string{{"::/0", "::/0", "::/0"}}}} {
 		if s.Terminal() {
 			break
 		}
 		s.Apply(s.concretize(op), true)
 	}
-	r.Add("long_run_messages", 4210)
+	r.Add("long_run_messages", 65545)
+	// a client's hint-less renewal after exactly k IA_PDs of other clients were handled, for k
+	// around 2^16 (a 16-bit count of handled IA_PDs comes round to the same value)
+	for k := 65533; k <= 65538; k++ {
+		s := NewSys(r, id, Pool{"2001:db8:0:40::/58", 64}, 3, false)
+		s.Apply(s.concretize(Op{Client: "A", Msg: 1, IAPDs: [][]string{{}}}), true)
+		s.Apply(s.concretize(Op{Client: "B", Msg: 1, IAPDs: [][]string{{}}}), true)
+		renew := s.concretize(Op{Client: "B", Msg: 5, IAPDs: [][]string{{"own1"}}})
+		renew.Repeat = k - 1
+		s.Apply(renew, true)
+		for _, op := range []Op{{Client: "A", Msg: 5, IAPDs: [][]string{{}}}, {Client: "A", Msg: 5, IAPDs: [][]string{{}}}, {Client: "A", Msg: 5, IAPDs: [][]string{{"own1"}}}} {
+			if s.Terminal() {
+				break
+			}
+			s.Apply(s.concretize(op), true)
+		}
+		r.Add("long_run_messages", int64(k+4))
+	}
 }
 
 func manyLeases(r *ev.Run, id string) {
